@@ -136,7 +136,7 @@ impl GitVcs {
 
     /// Get all commits from HEAD in topological order (only commits with tags)
     fn get_commits_in_topo_order(&self) -> Result<Vec<String>> {
-        let commits_output = self.run_git_command(&["rev-list", "--topo-order", "HEAD"])?;
+        let commits_output = self.run_git_command(&["rev-list", "--topo-order", "HEAD", "--"])?;
         let commits_output_only_with_tags =
             self.run_git_command(&["log", "--tags", "--no-walk", "--format=%H"])?;
 
@@ -203,7 +203,9 @@ impl GitVcs {
         // when dates are out of order (clock skew, imported history). The tagged commit is an
         // ancestor of HEAD, so the difference of two unrestricted counts is exact.
         let count = |rev: &str| -> Result<u32> {
-            self.run_git_command(&["rev-list", "--count", rev])?
+            // the trailing `--` marks `rev` as a revision: a file named like the tag in the
+            // work tree would otherwise make the argument ambiguous and the command fail
+            self.run_git_command(&["rev-list", "--count", rev, "--"])?
                 .parse::<u32>()
                 .map_err(|e| ZervError::CommandFailed(format!("Failed to parse distance: {e}")))
         };
@@ -249,7 +251,8 @@ impl GitVcs {
     fn get_tag_commit_hash(&self, tag: &str) -> Result<Option<String>> {
         // Use `git rev-list -n 1` to get the commit hash that the tag points to
         // This works for both annotated and lightweight tags
-        match self.run_git_command(&["rev-list", "-n", "1", tag]) {
+        // (`--`: the tag name is a revision even if a file of the same name exists)
+        match self.run_git_command(&["rev-list", "-n", "1", tag, "--"]) {
             Ok(hash) if !hash.trim().is_empty() => Ok(Some(hash.trim().to_string())),
             Ok(_) | Err(_) => Ok(None),
         }
